@@ -278,6 +278,9 @@ def oracleC08 (c : Case) : Option (List String) :=
     let cs := condAt xs n n m
     if !(wfBaseRate 0 ax && condWf 0 cs) then none else
     let w := beliefWeight ax cs
+    -- every conditional vacuous by the guard (u >= 1-2eps) while some carries belief: inside the vacuity tolerance band
+    -- (theorem C08_band_witness / C08_none_within): the guard may classify the table as all-vacuous
+    if decide (w ≠ 0) && cs.all (fun cc => decide (1 - 2 * c.eps ≤ cc.2)) then none else
     if c.cls == "none" then some (check "C08.none_iff" (decide (w = 0)))
     else if c.cls != "ok" then some ["C08.no_value(" ++ c.cls ++ ")"]
     else match allSome c.out with
@@ -292,6 +295,7 @@ def oracleC08 (c : Case) : Option (List String) :=
     let cs := condAt xs (2 * n + 1) n m
     if !(wfBaseRate 0 ax && condWf 0 cs) then none else
     let w := beliefWeight ax cs
+    if decide (w ≠ 0) && cs.all (fun cc => decide (1 - 2 * c.eps ≤ cc.2)) then none else
     if c.op == "deduce" then
       if c.cls == "none" then some (check "C08.deduce_none_iff" (decide (w = 0)))
       else if c.cls != "ok" then some ["C08.no_value(" ++ c.cls ++ ")"]
@@ -308,6 +312,7 @@ def oracleC08 (c : Case) : Option (List String) :=
     let ax := slice xs (2 * m + 1 + n * (m + 1)) n
     if !(wfBaseRate 0 ax && condWf 0 cs) then none else
     let w := beliefWeight ax cs
+    if decide (w ≠ 0) && cs.all (fun cc => decide (1 - 2 * c.eps ≤ cc.2)) then none else
     if c.cls == "none" then some (check "C08.abduce_none_iff" (decide (w = 0)))
     else if c.cls != "ok" then some ["C08.no_value(" ++ c.cls ++ ")"]
     else some (check "C08.abduce_none_iff" (decide (w ≠ 0)))
@@ -376,6 +381,7 @@ def oracleC05 (c : Case) : Option (List String) :=
         let t := sumQ raw
         if t = 0 then none else some (raw.map (· / t))
     if !(condWf 0 cs && wfBaseRate 0 ax && wfSimplex 0 sb su && ax.all (fun v => decide (0 < v))) then none else
+    if cs.all (fun cc => decide (1 - 2 * c.eps ≤ cc.2)) && cs.any (fun cc => decide (cc.2 < 1)) then none else
     match ayOpt with
     | none => if c.cls == "none" then some [] else some ["C05.abduce_none_iff"]
     | some ay =>
@@ -546,7 +552,7 @@ def oracleC04 (c : Case) : Option (List String) :=
   let (bx, ux, ax) := opinionAt xs 0 n
   let cs := condAt xs (2 * n + 1) n m
   let fb := slice xs (2 * n + 1 + n * (m + 1)) m
-  if !(wfOpinion 0 bx ux ax && condWf 0 cs) then none else
+  if !(wfOpinion (4 * c.eps) bx ux ax && condWf (4 * c.eps) cs) then none else
   let raw := (List.range m).map fun y => sumQ (List.zipWith (fun a cc => a * cc.1.getD y 0) ax cs)
   let t := sumQ raw
   let allVac := cs.all fun cc => decide (1 - 2 * c.eps ≤ cc.2)
@@ -613,6 +619,8 @@ def oracleC06 (c : Case) : Option (List String) :=
   let N := P.length
   withValue c "C06" fun out =>
     let (b, u, a) := opinionAt out 0 N
+    if A.any (fun v => decide (0 < v) && decide (v ≤ c.eps)) then
+      check "C06.wf" (wfOpinion (τ * (N + 1)) b u a) ++ check "C06.outer_base_rate" (closeList τ a A) else
     let uhat := (List.zip (List.zip P B) A).foldl
       (fun (acc : Option Rat) (t : (Rat × Rat) × Rat) => if t.2 > 0 then
           let v := (t.1.1 - t.1.2) / t.2
@@ -703,7 +711,7 @@ def oracleC13 (c : Case) : Option (List String) :=
     let kind := c.ints.getD 0 0
     if !(x.wf (4 * e) && y.wf (4 * e)) then none else
     -- uncertainties in (0, eps] are excluded: the two families deliberately classify them differently
-    let band (v : Rat) : Bool := decide (0 < v) && decide (v ≤ e)
+    let band (v : Rat) : Bool := (decide (0 < v) && decide (v ≤ e)) || (decide (1 - 2 * e ≤ v) && decide (v < 1))
     if band x.u || band y.u then none else
     -- equal-weight averaging / weighting of two dogmatic opinions: gamma must be 1/2
     if (kind == 1 || kind == 2) && x.u = 0 && y.u = 0 && xs.getD 8 0 ≠ 1 / 2 then none else
